@@ -6,7 +6,7 @@ From Coq Require Import List String ZArith Bool.
 Import ListNotations.
 From Anthem Require Import Base.ISet Syntax.Fol Syntax.Asp Sem.Domain Sem.Sat Model.Problem Model.Outline Model.Strong
   Model.External Proofs.SemBase Proofs.DecomposeOk Proofs.StrongOk Proofs.ExternalOk Proofs.AssemblyOk
-  Proofs.RenameOk Proofs.C02Ok.
+  Proofs.RenameOk Proofs.C19Ext Proofs.C02Ok.
 Open Scope string_scope.
 Open Scope list_scope.
 
@@ -45,7 +45,7 @@ Theorem C02_assembly :
     external_decompose is_tight has_private_recursion tau_star completion simp_classic t = Ok (w, pbs) ->
     task_left tau_star completion simp_classic t L = Some lft ->
     task_right tau_star completion simp_classic t = Some rgt ->
-    (forall uga, validated_no_clash (mkvalidated lft rgt uga empty_outline (et_decomposition t) (et_direction t) (et_break t))) ->
+    (forall vt, task_validated tau_star completion simp_classic t = Some vt -> validated_no_clash vt) ->
     forall FI M,
       tvalid FI M (map (fun a => rp_formula (task_placeholders t) (an_formula a)) (filter is_assumption (ug_formulas (et_user_guide t)))) ->
       tvalid FI M (assumptions_of lft) -> tvalid FI M (assumptions_of rgt) ->
@@ -94,7 +94,7 @@ Theorem C02_partial :
       external_decompose is_tight has_private_recursion tau_star completion simp_classic t = Ok (w, pbs) ->
       task_left tau_star completion simp_classic t L = Some lft ->
       task_right tau_star completion simp_classic t = Some rgt ->
-      (forall uga, validated_no_clash (mkvalidated lft rgt uga empty_outline (et_decomposition t) (et_direction t) (et_break t))) ->
+      (forall vt, task_validated tau_star completion simp_classic t = Some vt -> validated_no_clash vt) ->
       forall FI M,
         tvalid FI M (map (fun a => rp_formula (task_placeholders t) (an_formula a)) (filter is_assumption (ug_formulas (et_user_guide t)))) ->
         tvalid FI M (assumptions_of lft) -> tvalid FI M (assumptions_of rgt) ->
